@@ -29,16 +29,16 @@ import (
 func init() { register("C09", runC09) }
 
 type c09Case struct {
-	PwHex     string   `json:"password_hex"`
-	PwClass   string   `json:"password_class"`
-	User      string   `json:"user"`
-	Remotes   []string `json:"remote_servers"`    // names
-	RemPwHex  []string `json:"remote_passwords_hex"`
-	NonceLen  int      `json:"nonce_len"`
-	KeyBits   int      `json:"key_bits"`
-	PackSize  int      `json:"pack_size"`
-	Variant   string   `json:"variant"` // ok | too-long | server-fails-round2 | control-plain
-	CutClass  string   `json:"cut_class"`
+	PwHex    string   `json:"password_hex"`
+	PwClass  string   `json:"password_class"`
+	User     string   `json:"user"`
+	Remotes  []string `json:"remote_servers"` // names
+	RemPwHex []string `json:"remote_passwords_hex"`
+	NonceLen int      `json:"nonce_len"`
+	KeyBits  int      `json:"key_bits"`
+	PackSize int      `json:"pack_size"`
+	Variant  string   `json:"variant"` // ok | too-long | server-fails-round2 | control-plain
+	CutClass string   `json:"cut_class"`
 }
 
 const c09MsgLogPwd3, c09MsgRemPwd3, c09MsgSymKey = 31, 32, 34
@@ -243,36 +243,55 @@ func c09Run(c *Ctx, cs c09Case, keepCT map[string][]byte) {
 		fail("login-failed", res.err.Error())
 		return
 	}
-	// ---- (2) structural: phase 2 decodes and decrypts
 	if len(res.messages) < 2 {
 		fail("phase2-missing", "the client sent no second message")
 		return
 	}
-	b := res.messages[1]
+	sk, pwCT, ok := c09Phase2(r, fail, key, nonce, pw, cs.Remotes, secrets, res.messages[1])
+	if !ok {
+		return
+	}
+	if keepCT != nil {
+		for name, v := range map[string][]byte{"pwct": pwCT, "sk": sk} {
+			if prev, ok := keepCT[name]; ok && bytes.Equal(prev, v) {
+				fail("freshness/repeated-across-logins/"+name, fmt.Sprintf("two logins with the same inputs produced the same %s: %x", name, v))
+				return
+			}
+			keepCT[name] = append([]byte(nil), v...)
+		}
+	}
+}
+
+// c09Phase2 verifies the client's second login message: structure,
+// decryption of every ciphertext to nonce||secret, freshness within the
+// login. It returns the session key and the password ciphertext.
+func c09Phase2(r *rt.Result, fail func(string, string), key *lpKey, nonce, pw []byte, remotes []string, secrets [][]byte, body []byte) ([]byte, []byte, bool) {
+	// ---- (2) structural: phase 2 decodes and decrypts
+	b := body
 	type triple struct {
-		id   uint16
-		f    refpkg.Format
-		row  refpkg.Row
+		id  uint16
+		f   refpkg.Format
+		row refpkg.Row
 	}
 	var triples []triple
 	for len(b) > 0 {
 		dm, err := refpkg.DecodeMsg(b)
 		if err != nil {
-			fail("phase2/undecodable", fmt.Sprintf("expected MSG at offset %d: %v", len(res.messages[1])-len(b), err))
-			return
+			fail("phase2/undecodable", fmt.Sprintf("expected MSG at offset %d: %v", len(body)-len(b), err))
+			return nil, nil, false
 		}
 		b = b[dm.Consumed:]
 		df, err := refpkg.DecodeFormat(b)
 		if err != nil {
 			fail("phase2/undecodable", fmt.Sprintf("expected PARAMFMT: %v", err))
-			return
+			return nil, nil, false
 		}
 		b = b[df.Consumed:]
 		f := df.Pkg.(refpkg.Format)
 		dr, err := refpkg.DecodeRow(b, f)
 		if err != nil {
 			fail("phase2/undecodable", fmt.Sprintf("expected PARAMS: %v", err))
-			return
+			return nil, nil, false
 		}
 		b = b[dr.Consumed:]
 		triples = append(triples, triple{dm.Pkg.(refpkg.Msg).ID, f, dr.Pkg.(refpkg.Row)})
@@ -280,12 +299,12 @@ func c09Run(c *Ctx, cs c09Case, keepCT map[string][]byte) {
 	wantIDs := []uint16{c09MsgLogPwd3, c09MsgRemPwd3, c09MsgSymKey}
 	if len(triples) != 3 {
 		fail("phase2/wrong-structure", fmt.Sprintf("%d MSG/PARAMFMT/PARAMS groups, want 3 (password, remote passwords, session key)", len(triples)))
-		return
+		return nil, nil, false
 	}
 	for i, t := range triples {
 		if t.id != wantIDs[i] {
 			fail("phase2/wrong-structure", fmt.Sprintf("group %d has message id %d, want %d", i, t.id, wantIDs[i]))
-			return
+			return nil, nil, false
 		}
 	}
 	decrypt := func(ct []byte) ([]byte, error) {
@@ -307,18 +326,18 @@ func c09Run(c *Ctx, cs c09Case, keepCT map[string][]byte) {
 	// password
 	if len(triples[0].row.Cells) != 1 {
 		fail("phase2/wrong-structure", "password group does not carry exactly one parameter")
-		return
+		return nil, nil, false
 	}
 	pwCT := triples[0].row.Cells[0].Data
 	if !checkCT("password", pwCT, pw) {
-		return
+		return nil, nil, false
 	}
 	// remote passwords: first the current server ("" + account password)
 	cells := triples[1].row.Cells
-	wantPairs := 1 + len(cs.Remotes)
+	wantPairs := 1 + len(remotes)
 	if len(cells) != 2*wantPairs {
 		fail("phase2/wrong-structure", fmt.Sprintf("remote password group has %d parameters, want %d (name, password) pairs", len(cells), wantPairs))
-		return
+		return nil, nil, false
 	}
 	var cts [][]byte
 	cts = append(cts, pwCT)
@@ -326,15 +345,15 @@ func c09Run(c *Ctx, cs c09Case, keepCT map[string][]byte) {
 		name := ""
 		secret := pw
 		if i > 0 {
-			name = cs.Remotes[i-1]
+			name = remotes[i-1]
 			secret = secrets[i]
 		}
 		if string(cells[2*i].Data) != name {
 			fail("phase2/wrong-remote-server-name", fmt.Sprintf("pair %d carries name %q, want %q", i, cells[2*i].Data, name))
-			return
+			return nil, nil, false
 		}
 		if !checkCT("remote-password", cells[2*i+1].Data, secret) {
-			return
+			return nil, nil, false
 		}
 		cts = append(cts, cells[2*i+1].Data)
 	}
@@ -343,11 +362,11 @@ func c09Run(c *Ctx, cs c09Case, keepCT map[string][]byte) {
 	skPT, err := decrypt(skCT)
 	if err != nil {
 		fail("phase2/ciphertext-does-not-decrypt/session-key", err.Error())
-		return
+		return nil, nil, false
 	}
 	if len(skPT) != len(nonce)+32 || !bytes.Equal(skPT[:len(nonce)], nonce) {
 		fail("phase2/plaintext-not-nonce-plus-secret/session-key", fmt.Sprintf("decrypts to %d bytes, want nonce (%d) + 32 key bytes", len(skPT), len(nonce)))
-		return
+		return nil, nil, false
 	}
 	sk := skPT[len(nonce):]
 	r.Count("ciphertexts_decrypted", 1)
@@ -356,23 +375,15 @@ func c09Run(c *Ctx, cs c09Case, keepCT map[string][]byte) {
 		for j := i + 1; j < len(cts); j++ {
 			if bytes.Equal(cts[i], cts[j]) {
 				fail("freshness/equal-ciphertexts-within-login", fmt.Sprintf("ciphertexts %d and %d of one login are identical", i, j))
-				return
+				return nil, nil, false
 			}
 		}
 	}
 	if bytes.Equal(sk, make([]byte, 32)) || bytes.Count(sk, sk[:1]) == 32 {
 		fail("freshness/constant-session-key", fmt.Sprintf("session key %x", sk))
-		return
+		return nil, nil, false
 	}
-	if keepCT != nil {
-		for name, v := range map[string][]byte{"pwct": pwCT, "sk": sk} {
-			if prev, ok := keepCT[name]; ok && bytes.Equal(prev, v) {
-				fail("freshness/repeated-across-logins/"+name, fmt.Sprintf("two logins with the same inputs produced the same %s: %x", name, v))
-				return
-			}
-			keepCT[name] = append([]byte(nil), v...)
-		}
-	}
+	return sk, pwCT, true
 }
 
 func c09ErrText(r *rt.Result, cs c09Case, err error, secrets [][]byte, cfg *tds.LoginConfig, fail func(string, string)) {
@@ -411,6 +422,11 @@ func runC09(c *Ctx) {
 	r.TrustedBase = []string{"harness/refpkg: login record by absolute offsets, MSG/PARAMFMT/PARAMS/CAPABILITY decoders", "Go crypto/rsa OAEP decryption with the peer's private key"}
 	r.Assumptions = []string{"freshness can be refuted (a repeat) but not established by sampling", "secrets shorter than 4 bytes are not searched for textually (they are still checked positionally and by decryption)", "a secret that equals a non-secret input (user name, host, application, server, remote server name) is explained by exactly the occurrences of that input"}
 	if c.Replay != nil {
+		var rl c09ReloginCase
+		if json.Unmarshal(c.Replay, &rl) == nil && rl.Leg == "relogin" {
+			c09Relogin(c, rl)
+			return
+		}
 		var cs c09Case
 		if err := json.Unmarshal(c.Replay, &cs); err != nil {
 			r.Inconclusive("bad replay: %v", err)
@@ -516,6 +532,7 @@ func runC09(c *Ctx) {
 	for i := 0; i < 3; i++ {
 		r.Sample(cases[(i*37)%len(cases)].Variant, cases[(i*37)%len(cases)])
 	}
+	runC09Relogin(c)
 	c.parallel(len(cases), func(i int) {
 		keep := map[string][]byte{}
 		c09Run(c, cases[i], keep)
